@@ -1109,6 +1109,7 @@ def copy_or_shift_logic(
 
     # Perform shifting/copying
     for from_path, to_path in zip(from_paths, to_paths):
+        _merge_children = merge_children
         if with_full_path:
             from_node = search.find_full_path(tree, from_path)
         else:
@@ -1136,7 +1137,7 @@ def copy_or_shift_logic(
                 # To node found
                 if to_node:
                     if from_node == to_node:
-                        if merge_children:
+                        if _merge_children:
                             parent = to_node.parent
                             to_node.parent = None
                             to_node = parent
@@ -1148,7 +1149,7 @@ def copy_or_shift_logic(
                                 f"Check from path {from_path} and to path {to_path}\n"
                                 f"Alternatively, set `merge_children` or `merge_leaves` to True if intermediate node is to be removed"
                             )
-                    elif merge_children:
+                    elif _merge_children:
                         # Specify override to remove existing node, else children are merged
                         if not overriding:
                             logging.info(
@@ -1161,7 +1162,7 @@ def copy_or_shift_logic(
                             parent = to_node.parent
                             to_node.parent = None
                             to_node = parent
-                            merge_children = False
+                            _merge_children = False
                     elif merge_leaves:
                         # Specify override to remove existing node, else leaves are merged
                         if not overriding:
@@ -1199,7 +1200,7 @@ def copy_or_shift_logic(
             if copy:
                 logging.debug(f"Copying {from_node.node_name}")
                 from_node = from_node.copy()
-            if merge_children:
+            if _merge_children:
                 logging.debug(
                     f"Reassigning children from {from_node.node_name} to {to_node.node_name}"
                 )
